@@ -98,6 +98,9 @@ func checkHeaderFields(d *decFile, cfg *pConfig, cam pCamera, wantThresh int, dy
 		if !cfg.LocTimestamp.IsZero() && d.LocTS.UnixNano()/1000 != cfg.LocTimestamp.UnixNano()/1000 {
 			return "header-location-timestamp", fmt.Sprintf("location timestamp %v, configured %v", d.LocTS.UTC(), cfg.LocTimestamp.UTC())
 		}
+	} else if d.Lat != 0 || d.Long != 0 || d.Alt != 0 || d.Acc != 0 {
+		// no [location] in config.toml: the file names none (not some place the code knows about)
+		return "header-location", fmt.Sprintf("location %v/%v/%v/%v, but config.toml has no [location] section", d.Lat, d.Long, d.Alt, d.Acc)
 	}
 	// motion configuration in force
 	var m map[string]interface{}
